@@ -1982,7 +1982,10 @@ class Client:
         if isinstance(topic, tuple):
             if self._protocol == MQTTv5:
                 topic, options = topic  # type: ignore
-                if not isinstance(options, SubscribeOptions):
+                if isinstance(options, int) and not isinstance(options, bool):
+                    # documented form subscribe(("my/topic", 1)): the second item is the QoS
+                    qos, options = options, None
+                elif not isinstance(options, SubscribeOptions):
                     raise ValueError(
                         'Subscribe options must be instance of SubscribeOptions class.')
             else:
